@@ -138,7 +138,8 @@ def execute(case):
                     op['length'] is None or op['offset'] + op['length'] >= n):
                 res.probe('window-in-truncated-last-chunk')
             for mode, tf in (('lazy', lazy), ('eager', eager)):
-                v, g, exc = _lazy.check_op(tf, w, op, full, 'C04', mode, keeper=keeper if mode == 'lazy' else None)
+                v, g, exc = _lazy.check_op(tf, w, op, full, 'C04', mode, res=res, keeper=keeper if mode == 'lazy' else None,
+                                           scribble=(mode == 'lazy' and i % 3 == 0))
                 res.steps += 1
                 res.compared += 1
                 if g is not None and (g[0] not in ('arr', 'strs', 'rawts') or _lazy.full_len(g) > 0):
